@@ -175,22 +175,24 @@ impl Types {
         }
 
         if let Some(Type::Id(id)) = func.result {
+            // When an interface `use`s a type from another interface, it creates a new typeid
+            // referring to the definition typeid. Chase any chain of references down to the
+            // typeid of the definition.
+            fn resolve_type_definition_id(resolve: &Resolve, mut id: TypeId) -> TypeId {
+                loop {
+                    match resolve.types[id].kind {
+                        TypeDefKind::Type(Type::Id(def_id)) => id = def_id,
+                        _ => return id,
+                    }
+                }
+            }
+            // The result type itself may be named through `type`/`use` aliases too.
+            let id = resolve_type_definition_id(resolve, id);
             let err = match &resolve.types[id].kind {
                 TypeDefKind::Result(Result_ { err, .. }) => err,
                 _ => return,
             };
             if let Some(Type::Id(id)) = err {
-                // When an interface `use`s a type from another interface, it creates a new typeid
-                // referring to the definition typeid. Chase any chain of references down to the
-                // typeid of the definition.
-                fn resolve_type_definition_id(resolve: &Resolve, mut id: TypeId) -> TypeId {
-                    loop {
-                        match resolve.types[id].kind {
-                            TypeDefKind::Type(Type::Id(def_id)) => id = def_id,
-                            _ => return id,
-                        }
-                    }
-                }
                 let id = resolve_type_definition_id(resolve, *id);
                 self.type_info.get_mut(&id).unwrap().error = true;
             }
